@@ -10,8 +10,6 @@ from typing import Any, Dict, List, Optional
 
 import jsonpath_rfc9535 as jp
 from jsonpath_rfc9535 import JSONPathEnvironment
-from jsonpath_rfc9535.exceptions import JSONPathSyntaxError
-from jsonpath_rfc9535.parse import Parser
 
 from vtools import inst
 from vtools.inst import assume, fresh
@@ -83,58 +81,69 @@ class LinearDict(dict):
         return self._find(key) is not None
 
 
-# ------------------------------------------------------------------ arithmetic-only hex kernels (proved equal to the real ones by Engine B2, C09)
-def _hexval(ch: str) -> int:
-    o = ord(ch)
-    if 48 <= o <= 57:
-        return o - 48
-    if 65 <= o <= 70:
-        return o - 55
-    if 97 <= o <= 102:
-        return o - 87
-    return -1
+class SymKeyDict(dict):
+    """A JSON object whose member names may be symbolic strings: lookups are equality scans over (name, value) pairs.
 
-
-class ModelParser(Parser):
-    """The real parser with the two bitwise kernels replaced by arithmetic-only equivalents.
-
-    ``_parse_hex_digits`` (str.encode + shifts) and the surrogate-pair combination of
-    ``_decode_hex_char`` cannot be kept symbolic by the executor (DESIGN F11); Engine B2 proves, from the
-    real source, that they compute exactly these arithmetic functions (C09 obligations b2_*).
-    Everything else is the unmodified code.
+    Used as a *document* in symbolic runs (a real dict would hash, i.e. realize, a symbolic name); replays use a real dict.
+    Member order is the insertion order of the pairs, duplicates (equal names) are the caller's business.
     """
 
-    def _parse_hex_digits(self, digits: str, token) -> int:  # type: ignore[override]
-        cp = 0
-        for ch in digits:
-            v = _hexval(ch)
-            if v < 0:
-                raise JSONPathSyntaxError("invalid \\uXXXX escape sequence", token=token)
-            cp = cp * 16 + v
-        return cp
+    def __init__(self, pairs) -> None:
+        dict.__init__(self)
+        self._pairs = list(pairs)
 
-    def _decode_hex_char(self, value: str, index: int, token):  # type: ignore[override]
-        # identical control flow to the real method; only the combination expression is arithmetic
-        length = len(value)
-        if index + 4 >= length:
-            raise JSONPathSyntaxError("incomplete escape sequence", token=token)
-        index += 1
-        codepoint = self._parse_hex_digits(value[index : index + 4], token)
-        if self._is_low_surrogate(codepoint):
-            raise JSONPathSyntaxError("unexpected low surrogate", token=token)
-        if self._is_high_surrogate(codepoint):
-            if not (index + 9 < length and value[index + 4] == "\\" and value[index + 5] == "u"):
-                raise JSONPathSyntaxError("incomplete escape sequence", token=token)
-            low = self._parse_hex_digits(value[index + 6 : index + 10], token)
-            if not self._is_low_surrogate(low):
-                raise JSONPathSyntaxError("unexpected codepoint", token=token)
-            codepoint = 0x10000 + ((codepoint - 0xD800) * 0x400 + (low - 0xDC00))
-            return (codepoint, index + 9)
-        return (codepoint, index + 3)
+    def _find(self, key):
+        for i, (k, _v) in enumerate(self._pairs):
+            if k == key:
+                return i
+        return -1
+
+    def __getitem__(self, key):
+        i = self._find(key)
+        if i < 0:
+            raise KeyError("<name>")
+        return self._pairs[i][1]
+
+    def get(self, key, default=None):
+        i = self._find(key)
+        return default if i < 0 else self._pairs[i][1]
+
+    def __contains__(self, key) -> bool:
+        return self._find(key) >= 0
+
+    def __iter__(self):
+        return iter([k for k, _v in self._pairs])
+
+    def keys(self):
+        return [k for k, _v in self._pairs]
+
+    def values(self):
+        return [v for _k, v in self._pairs]
+
+    def items(self):
+        return list(self._pairs)
+
+    def __len__(self) -> int:
+        return len(self._pairs)
+
+    def __bool__(self) -> bool:
+        return len(self._pairs) > 0
+
+    def __eq__(self, other):
+        raise TypeError("SymKeyDict is a document, not a comparand")
+
+    __hash__ = None  # type: ignore[assignment]
+
+
+def sym_object(pairs):
+    """A JSON object from (name, value) pairs: real dict in replays, SymKeyDict in symbolic runs (distinct names assumed)."""
+    if symbolic_mode():
+        return SymKeyDict(pairs)
+    return dict(pairs)
 
 
 class ModelEnv(JSONPathEnvironment):
-    parser_class = ModelParser
+    """The real environment and the real parser; only the function registry is an equality-scan dict (M3)."""
 
     def __init__(self) -> None:
         super().__init__()
@@ -176,6 +185,9 @@ def install_text_models() -> None:
         cls.__repr__ = _placeholder_repr  # type: ignore[assignment]
         todo.extend(cls.__subclasses__())
     chpatches.install(slices=True, ints=True)
+    # M9/M4: << | & on symbolic ints as guarded arithmetic, str.encode as UTF-8 arithmetic, so that the *real*
+    # _parse_hex_digits / _decode_hex_char run symbolically
+    chpatches.install_bitwise()
     # number literals: float("<digits>") in IEEE-precise mode makes z3 answer unknown; the real-valued model is
     # exact for the digit strings the lexer passes (counterexamples are replayed on real floats anyway)
     chpatches.use_real_floats()
